@@ -20,8 +20,18 @@ Searches (untrusted; their answers are always re-checked by the checkers above):
                                  pruning rule): `.witness x` or `.farkas y`.
 * `project n S c : Option (Vec × Vec)` — active-set enumeration for the nearest point: `(x, lam)`.
 * `feasible n S : Option Bool` — `solve` + checker: `some true` / `some false` are certified,
-                                 `none` = no certificate (never observed; FM is complete).
-* `nearest n S c : Option (Vec × Vec)` — `project` + `checkKKT`.
+                                 `none` = no certificate (never observed; completeness of the *pruned*
+                                 search is not proved).
+* `solvePlain n S : Result`, `feasibleFM n S : Option Bool` — plain Fourier–Motzkin (no pruning) +
+                                 checker.  **Complete**: never `none` when every row has `n`
+                                 coefficients (`feasibleFM_complete`, `Proofs/LinCertComplete.lean`).
+* `feasibleC n S : Option Bool` — the decision procedure other code should call: `feasible`, and
+                                 `feasibleFM` only if that returned `none`.  Certified *and* total:
+                                 `some true ↔` a real solution exists, `some false ↔` none exists
+                                 (`feasibleC_true_iff`, `feasibleC_false_iff`).
+* `nearest n S c : Option (Vec × Vec)` — `project` + `checkKKT`.  **Complete**: `some` whenever the
+                                 system is well formed, `c` has `n` entries and a solution exists
+                                 (`nearest_complete`, `Proofs/LinCertKKT.lean`).
 
 Helpers: `Ineq`, `Sys`, `lincomb` (`Lᵀ y`), `combA`, `combB`, `zeros`, `isZero`, `solveLin`.
 -/
@@ -155,6 +165,77 @@ def feasible (n : Nat) (S : Sys) : Option Bool :=
   match solve n S with
   | .witness x => if checkWitness n S x then some true else none
   | .farkas y => if checkFarkas n S y then some false else none
+
+/-! ## Plain Fourier–Motzkin elimination (no support pruning): the provably complete fallback
+
+`fm` above prunes with Kohler's rule, whose completeness proof needs a rank argument.  `fmPlain` is
+the textbook procedure (only rows `0 ≥ b` with `b ≤ 0` are dropped); it is exponential, which is
+irrelevant for the systems of this project (it only runs when the fast search did not produce an
+accepted certificate, which has never been observed).  `Proofs/LinCertComplete.lean` proves that
+for every well-formed system its answer *is* accepted by the checker (`feasibleFM_complete`). -/
+
+/-- rows with positive head coefficient, normalised to head `+1`, head dropped -/
+def posRows (rows : List Row) : List Row :=
+  (rows.filter (fun r => decide (0 < headD r.a))).map (fun r => scaleTail (1 / headD r.a) r)
+
+/-- rows with negative head coefficient, normalised to head `−1`, head dropped -/
+def negRows (rows : List Row) : List Row :=
+  (rows.filter (fun r => decide (headD r.a < 0))).map (fun r => scaleTail (-1 / headD r.a) r)
+
+/-- rows with zero head coefficient, head dropped -/
+def zerRows (rows : List Row) : List Row :=
+  (rows.filter (fun r => decide (headD r.a = 0))).map (fun r => scaleTail 1 r)
+
+/-- all sums of a positive and a negative normalised row -/
+def crossRows (pos neg : List Row) : List Row :=
+  pos.flatMap (fun p => neg.map (fun q => addRow p q))
+
+/-- a row `0 ≥ b` with `b ≤ 0` -/
+def trivialRow (r : Row) : Bool := isZero r.a && decide (r.b ≤ 0)
+
+/-- a point between the largest lower and the smallest upper bound -/
+def between : Option Rat → Option Rat → Rat
+  | some l, some h => (l + h) / 2
+  | some l, none => l
+  | none, some h => h
+  | none, none => 0
+
+/-- back-substitution: a value for the eliminated unknown given the values `xt` of the others
+(pos: `x₀ + a·xt ≥ b`, neg: `−x₀ + a·xt ≥ b`) -/
+def pickX0 (pos neg : List Row) (xt : Vec) : Rat :=
+  between (maxList (pos.map (fun p => p.b - dot p.a xt)))
+    (minList (neg.map (fun q => dot q.a xt - q.b)))
+
+/-- `fmPlain n rows`: Fourier–Motzkin on rows with `n` unknowns, no pruning. -/
+def fmPlain : Nat → List Row → Result
+  | 0, rows =>
+    match rows.find? (fun r => decide (0 < r.b)) with
+    | some r => .farkas r.y
+    | none => .witness []
+  | n + 1, rows =>
+    let pos := posRows rows
+    let neg := negRows rows
+    let next := (zerRows rows ++ crossRows pos neg).filter (fun r => !trivialRow r)
+    match fmPlain n next with
+    | .farkas y => .farkas y
+    | .witness xt => .witness (pickX0 pos neg xt :: xt)
+
+/-- **Search** (complete, see `fmPlain_complete`): plain Fourier–Motzkin on the system `S`. -/
+def solvePlain (n : Nat) (S : Sys) : Result := fmPlain n (initRows S)
+
+/-- `solvePlain` + checker.  Never `none` on a well-formed system (`feasibleFM_complete`). -/
+def feasibleFM (n : Nat) (S : Sys) : Option Bool :=
+  match solvePlain n S with
+  | .witness x => if checkWitness n S x then some true else none
+  | .farkas y => if checkFarkas n S y then some false else none
+
+/-- **Decision**: the fast search (`feasible`, Kohler pruning); if it did not produce an accepted
+certificate, the complete search (`feasibleFM`).  `some true` / `some false` are certified; `none`
+only for an ill-formed system (`feasibleC_complete`). -/
+def feasibleC (n : Nat) (S : Sys) : Option Bool :=
+  match feasible n S with
+  | some b => some b
+  | none => feasibleFM n S
 
 /-! ## Exact linear solve and active-set enumeration (untrusted search) -/
 
